@@ -9,25 +9,25 @@ from lib import is_user_call
 from mir import canon
 
 SCOPE = {
-    'C01': ['server::streaming::partitions', 'server::streaming::segments', 'server::streaming::batching', 'server::streaming::topics::messages'],
-    'C02': ['server::streaming::partitions', 'server::streaming::segments', 'server::streaming::batching', 'server::streaming::cache', 'server::streaming::polling_consumer', 'server::streaming::systems::messages'],
+    'C01': ['server::streaming::partitions', 'server::streaming::segments', 'server::streaming::batching', 'server::streaming::topics::messages', 'server::streaming::systems::messages', 'server::channels::commands::maintain_messages'],
+    'C02': ['server::streaming::partitions', 'server::streaming::segments', 'server::streaming::batching', 'server::streaming::cache', 'server::streaming::polling_consumer', 'server::streaming::systems::messages', 'server::streaming::topics::messages'],
     'C03': ['server::streaming::partitions', 'server::streaming::segments', 'server::streaming::topics::storage', 'server::streaming::streams::storage', 'server::streaming::systems::system', 'server::compat'],
     'C04': ['server::streaming::partitions', 'server::streaming::segments', 'server::streaming::persistence', 'server::compat'],
-    'C05': ['server::state', 'server::binary::handlers', 'server::http', 'server::streaming::systems'],
+    'C05': ['server::state', 'server::binary::handlers', 'server::http', 'server::streaming::systems', 'server::streaming::streams', 'server::streaming::topics'],
     'C06': ['server::streaming::systems', 'server::streaming::streams', 'server::streaming::topics', 'server::state::system'],
-    'C07': ['server::streaming::partitions::consumer_offsets', 'server::streaming::systems::consumer_offsets', 'server::streaming::topics::consumer_offsets', 'server::streaming::partitions::storage', 'server::streaming::polling_consumer', 'server::streaming::topics::consumer_groups'],
-    'C08': ['server::streaming::topics::consumer_group', 'server::streaming::systems::consumer_groups', 'server::streaming::clients'],
-    'C09': ['server::streaming::users', 'server::streaming::systems', 'server::http::jwt', 'server::binary::handlers', 'server::http'],
-    'C10': ['server::streaming::users', 'server::streaming::personal_access_tokens', 'server::streaming::systems::users', 'server::streaming::systems::personal_access_tokens', 'server::http::jwt', 'server::streaming::session'],
+    'C07': ['server::streaming::partitions::consumer_offsets', 'server::streaming::systems::consumer_offsets', 'server::streaming::topics::consumer_offsets', 'server::streaming::partitions::storage', 'server::streaming::polling_consumer', 'server::streaming::topics::consumer_groups', 'server::streaming::partitions::persistence', 'server::streaming::topics::consumer_group'],
+    'C08': ['server::streaming::topics::consumer_group', 'server::streaming::systems::consumer_groups', 'server::streaming::clients', 'server::streaming::topics::consumer_groups', 'server::streaming::topics::storage', 'server::streaming::topics::consumer_offsets'],
+    'C09': ['server::streaming::users', 'server::streaming::systems', 'server::http::jwt', 'server::binary::handlers', 'server::http', 'iggy::models::permissions', 'server::state::system'],
+    'C10': ['server::streaming::users', 'server::streaming::personal_access_tokens', 'server::streaming::systems::users', 'server::streaming::systems::personal_access_tokens', 'server::http::jwt', 'server::streaming::session', 'server::binary::handlers::users', 'server::binary::handlers::personal_access_tokens', 'server::http::users', 'server::http::personal_access_tokens', 'server::state::system'],
     'C11': ['server::state'],
-    'C12': ['server::streaming::partitions', 'server::streaming::segments', 'server::streaming::persistence'],
-    'C13': ['iggy::', 'server::binary', 'server::http', 'server::tcp', 'server::quic'],
-    'C14': ['server::streaming::segments', 'server::streaming::partitions::segments', 'server::channels::commands::maintain_messages', 'server::streaming::topics', 'server::archiver'],
-    'C15': ['server::streaming::topics', 'server::streaming::streams::topics', 'server::streaming::systems::topics', 'server::channels::commands::maintain_messages'],
+    'C12': ['server::streaming::partitions', 'server::streaming::segments', 'server::streaming::persistence', 'server::streaming::cache', 'server::streaming::batching', 'server::streaming::topics::messages', 'server::streaming::systems::messages'],
+    'C13': ['iggy::', 'server::binary', 'server::http', 'server::tcp', 'server::quic', 'server::streaming::systems::messages'],
+    'C14': ['server::streaming::segments', 'server::streaming::partitions::segments', 'server::channels::commands::maintain_messages', 'server::streaming::topics', 'server::archiver', 'server::streaming::partitions::messages', 'server::streaming::streams::topics'],
+    'C15': ['server::streaming::topics', 'server::streaming::streams::topics', 'server::streaming::systems::topics', 'server::channels::commands::maintain_messages', 'server::state::system', 'server::streaming::segments::segment', 'server::streaming::partitions::segments'],
     'C16': ['server::streaming::'],
-    'C17': ['server::streaming::topics', 'iggy::messages', 'iggy::clients'],
-    'C18': ['server::streaming::deduplication', 'server::streaming::partitions', 'server::streaming::batching'],
-    'C19': ['iggy::utils::crypto', 'server::streaming::systems::messages', 'server::state', 'server::streaming::systems::system'],
+    'C17': ['server::streaming::topics', 'iggy::messages', 'iggy::clients', 'server::state::system', 'server::streaming::systems::messages'],
+    'C18': ['server::streaming::deduplication', 'server::streaming::partitions', 'server::streaming::batching', 'server::streaming::segments', 'server::streaming::topics::messages'],
+    'C19': ['iggy::utils::crypto', 'server::streaming::systems::messages', 'server::state', 'server::streaming::systems::system', 'server::streaming::topics::messages', 'iggy::clients'],
     'C20': ['iggy::clients', 'iggy::messages'],
 }
 
